@@ -81,6 +81,14 @@ def subjects():
         setup = [_stack("sync", [{"kind": "poll", "interval": 0.5, "per_sub": {"S.fn": {"after": 3, "then": then}}}]),
                  ["submit", "ex", "S", {"script": TAG}]]
         S["poll/polling"]["variants"][kind] = {"setup": setup, "complete": [["sleep", 1.5]]}
+    # poll, in the polling stage, with a cancel function that RESOLVES the future it is consulted about (through the descriptor
+    # the poll function was handed) and then agrees to the cancel: the future is finished, so cancel() must say False
+    S["poll/cancelfn-resolves"] = {"variants": {}}
+    for kind in ("value",):
+        setup = [_stack("sync", [{"kind": "poll", "interval": 0.5, "per_sub": {"S.fn": {"after": None}}, "keep_descriptors": True,
+                                  "cancel": [["resolve_via_poll", "ex.L0.poll", ["ret", True]]]}]),
+                 ["submit", "ex", "S", {"script": TAG}], ["sleep", 0.1]]
+        S["poll/cancelfn-resolves"]["variants"][kind] = {"setup": setup, "complete": [["sleep", 1.5]]}
     # combinators over source futures
     combs = {
         "f_nocancel": (["f_nocancel", ["src", "a"]], 1), "f_proxy": (["f_proxy", ["src", "a"]], 1),
